@@ -205,11 +205,13 @@ CLAIMS = {
                 "HDU list) vs the reader's index as an affine function of the position, counts tied to the data's "
                 "dimensionality, create (not require) semantics, registry completeness and same file layer; that "
                 "writers hand the grid's own arrays to the file layer and readers pass what they "
-                "read to the constructor unchanged, and slice consistency of grid_slice_interp; plus an exhaustive "
+                "read to the constructor unchanged, slice consistency of grid_slice_interp, and the bracketing structure of "
+                "the row-wise interpolation (complementary bracket masks so a query on a node is bracketed by it, paired "
+                "x/y selection, two-point formula); plus an exhaustive "
                 "DATA AUDIT over all ~550 000 nodes of all shipped tables (strictly increasing axes, CDF rows "
                 "non-decreasing from 0 to 1 within 1e-15, exit probabilities <= 1, smallest reachable tau energy above "
                 "the tau mass, axis names/order). It does NOT decide round-trip equality for arbitrary grids, slicing "
-                "values or agreement of vec_1d_interp with np.interp.",
+                "values or numerical agreement of vec_1d_interp with np.interp.",
         "technique": "value-flow graphs of the sibling reader / writer functions (sequence normal form, affine index "
                      "positions, key agreement) + identity of stored arrays; data audit of shipped files (labelled, "
                      "no repo code executed)",
